@@ -593,6 +593,7 @@ def run(tier: str, seed: int, replay=None) -> int:
     from translator import t_json
     rep = Report(PROP, tier, seed, "proof")
     rep.trusted = core.COQ_TRUSTED + [
+        "source pins, set `json` (pins/json.json): registry register/get_serializer/get_deserializer, module-level from_json, the six error constructors, SingletonMeta.__call__, ormatic.utils.create_engine -- hand-modelled, not regenerated; a change reopens the correspondence obligation",
         "translator/t_json.py (fail-closed ast translator; idiom table in Json/JsonVal.v)",
         "hand-written recursion / class-world model in Json/Serializer.v, tied by differential execution through to_json / json.dumps / json.loads / from_json",
         "MODELLED, compared on every case: json.loads(json.dumps(j)) == j with exact types (CPython json; NaN excluded)",
@@ -613,6 +614,11 @@ def run(tier: str, seed: int, replay=None) -> int:
     model_ok = core.standard_proof_steps(
         rep, PROP, ["Props/C18.vo"],
         regen=[c19.regen_entry()])
+    import warnings
+    from translator import pins
+    with warnings.catch_warnings():          # ast.parse of ormatic/utils.py warns about an escape in one of its docstrings
+        warnings.simplefilter("ignore", SyntaxWarning)
+        pins.oblige(rep, str(core.REPO), "json", "Json/Serializer.v (registry = exact-class lookup on one singleton; error constructors never fail; round trip = from_json . json.loads . json.dumps . to_json as in ormatic create_engine)")
     if model_ok and tier == "thorough" and not replay:
         c19.coqchk(rep, PROP)
     world()
